@@ -21,7 +21,7 @@ DUMP = ("---- MODULE TDump ----\nEXTENDS Json, TLC\nT == INSTANCE TerminationMC 
         "Emit == PrintT(<<\"EMIT\", ToJson(T!Shapes)>>)\n====\n")
 SHAPES = ["loop", "nested_loops", "loop_with_call", "recursion", "mutual_recursion", "indirect_cycle", "tail_call_cycle",
           "tail_call_indirect_cycle", "mutual_tail_calls", "loop_in_host_callback", "loop_in_imported_function",
-          "loop_two_levels_into_import"]
+          "loop_two_levels_into_import", "loop_in_host_callback_with_derived_deadline", "outer_loop_after_swallowed_stop"]
 TRIGGERS = ["deadline", "cancel", "already-cancelled", "close", "cancel-cause", "deadline-cause"]
 RULES = {"demanded": ("TRUE", "TRUE", "entry"), "as-coded:checks-at-loops,polls-caller": ("TRUE", "FALSE", "caller"),
          "as-coded:checks-at-loops,polls-entry": ("TRUE", "FALSE", "entry")}
@@ -58,7 +58,7 @@ def run(ctx):
     items = []
     for s in SHAPES:
         for e in ("interpreter", "compiler"):
-            for t in TRIGGERS:
+            for t in (TRIGGERS if s != "loop_in_host_callback_with_derived_deadline" else TRIGGERS + ["inner-deadline"]):
                 items.append({"shape": s, "prog": shapes[s], "trigger": t, "engine": e})
     if ctx.replay_path:
         items = [json.load(open(ctx.replay_path))["replay"]]
